@@ -344,6 +344,11 @@ func (e *Engine) Verify(name string) (*VC, error) {
 			goal := Implies(And(p.matchCond(sk), App("<=", App("rt", sk), f.entry.Top)), Eq(App("select", hn, sk), App("select", ho, sk)))
 			vc.oblige("preserves", fmt.Sprintf("%d@ret%d", pi+1, ri+1), r.guard, goal, "", "declared-preserved locations are not modified: "+spec.Preserves[minInt(pi, len(spec.Preserves)-1)].Text)
 		}
+		if isDeadReturn(f.rets, ri, spec.DeadReturns) {
+			// declared unreachable: prove it (the path condition is unsatisfiable)
+			vc.oblige("dead", fmt.Sprintf("ret%d", ri+1), r.guard, "false", vc.posOf(r.pos), "this return statement is unreachable (declared dead_return)")
+			continue
+		}
 		cv := vc.oblige("cover", fmt.Sprintf("ret%d", ri+1), r.guard, "true", vc.posOf(r.pos), "return point is reachable under the preconditions")
 		cv.ExpectSat = true
 	}
@@ -351,6 +356,26 @@ func (e *Engine) Verify(name string) (*VC, error) {
 		vc.unsupported("function %s has no reachable return", name)
 	}
 	return vc, nil
+}
+
+// isDeadReturn: return ri is, counted from the end in source order, one of the
+// declared dead returns (-1 = the last return statement of the function).
+func isDeadReturn(rets []retInfo, ri int, dead []int) bool {
+	if len(dead) == 0 {
+		return false
+	}
+	later := 0
+	for j := range rets {
+		if rets[j].pos > rets[ri].pos {
+			later++
+		}
+	}
+	for _, k := range dead {
+		if -k-1 == later {
+			return true
+		}
+	}
+	return false
 }
 
 func (vc *VC) allHeaps() []string {
